@@ -277,7 +277,53 @@ impl<'de> serde::Deserializer<'de> for Feed<'de> {
     }
 }
 
+/// A format that is not self-describing (like bincode): `deserialize_any` is an error, only the requested kind is
+/// served. String asks for `deserialize_string`; a transparent wrapper must ask for a string as well.
+#[derive(Clone, Copy, Debug)]
+struct Strict<'a>(&'a str, bool);
+
+impl<'de> serde::Deserializer<'de> for Strict<'de> {
+    type Error = ValueError;
+    fn deserialize_any<V: serde::de::Visitor<'de>>(self, _: V) -> Result<V::Value, ValueError> {
+        Err(serde::de::Error::custom("this format is not self-describing"))
+    }
+    fn deserialize_str<V: serde::de::Visitor<'de>>(self, v: V) -> Result<V::Value, ValueError> {
+        if self.1 { v.visit_borrowed_str(self.0) } else { v.visit_str(self.0) }
+    }
+    fn deserialize_string<V: serde::de::Visitor<'de>>(self, v: V) -> Result<V::Value, ValueError> {
+        if self.1 { v.visit_string(self.0.to_string()) } else { v.visit_str(self.0) }
+    }
+    fn deserialize_bytes<V: serde::de::Visitor<'de>>(self, v: V) -> Result<V::Value, ValueError> {
+        v.visit_bytes(self.0.as_bytes())
+    }
+    fn deserialize_byte_buf<V: serde::de::Visitor<'de>>(self, v: V) -> Result<V::Value, ValueError> {
+        v.visit_byte_buf(self.0.as_bytes().to_vec())
+    }
+    serde::forward_to_deserialize_any! {
+        bool i8 i16 i32 i64 i128 u8 u16 u32 u64 u128 f32 f64 char option unit unit_struct
+        newtype_struct seq tuple tuple_struct map struct enum identifier ignored_any
+    }
+}
+
 fn check_feeds(t: &str, b: &[u8]) -> Result<(), String> {
+    guard(|| {
+        for owned in [false, true] {
+            let l: Result<LeanString, ValueError> = LeanString::deserialize(Strict(t, owned));
+            let s: Result<String, ValueError> = String::deserialize(Strict(t, owned));
+            match (&l, &s) {
+                (Ok(x), Ok(y)) if x == y => {}
+                (Err(_), Err(_)) => {}
+                _ => {
+                    return Err(format!(
+                        "a format that is not self-describing: LeanString {:?}, String {:?}",
+                        l.map(|x| x.as_str().to_string()).map_err(|e| e.to_string()),
+                        s.map_err(|e| e.to_string())
+                    ));
+                }
+            }
+        }
+        Ok(())
+    })?;
     guard(|| {
         let feeds = [
             Feed::Str(t),
